@@ -1,2 +1,144 @@
+"""C12 / C13 - conveyor reference checks from observed instants only.
+
+p_k entry (put), o_k offered (first seen in the ready list), g_k taken (get); slot = item_length/speed (slotted: delay),
+T = capacity * slot.  The kinematic recursions are only judged in runs where a granted retrieval is never held over
+time, so that "the head waits at the exit" is exactly [o_k, g_k)."""
+EPS = 1e-9
+
+
+def overlap(S, a, b):
+    tot = 0.0
+    for s, e in S:
+        lo, hi = max(s, a), min(e, b)
+        if hi > lo:
+            tot += hi - lo
+    return tot
+
+
+def feat_of(r, S, slot, dev):
+    """Circumstances of a kinematic deviation (narrow signatures for known findings)."""
+    e = "before"
+    for a, b in S:
+        if abs(r.put_t - a) <= EPS:
+            e = "at-stall-start"
+        elif a < r.put_t < b:
+            e = "during-stall"
+    ph = "p2"
+    for a, b in S:
+        if r.put_t < a < r.put_t + slot - EPS:
+            ph = "p1"
+    nst = sum(1 for a, b in S if b > r.put_t and (r.avail_t is None or a < r.avail_t))
+    return f",entry={e},stall-in-phase={ph},stalls={min(nst, 3)},{'early' if dev < 0 else 'late'}"
+
+
 def check_belt(h):
-    return
+    ad = h.ad
+    slot, T, cap, acc = ad.slot, ad.travel, ad.cap, bool(ad.acc)
+    now = h.env.now
+    recs = [r for r in h.items.values() if r.put_t is not None]
+    recs.sort(key=lambda r: r.put_seq)
+    if not recs:
+        return
+    lab = ()
+    # ---------------- C12
+    gets = sorted([r for r in recs if r.got_t is not None], key=lambda r: r.got_seq)
+    if [r.name for r in gets] != [r.name for r in recs][:len(gets)]:
+        h.violate("C12", "order", f"items entered in order {[r.name for r in recs]} but left in order {[r.name for r in gets]}", feat=lab)
+    offs = sorted([r for r in recs if r.avail_t is not None], key=lambda r: r.avail_seq)
+    if [r.name for r in offs] != [r.name for r in recs][:len(offs)]:
+        h.violate("C12", "offer-order", f"items entered in order {[r.name for r in recs]} but reached the exit in order {[r.name for r in offs]}", feat=lab)
+    for a, b in zip(recs, recs[1:]):
+        if b.put_t - a.put_t < slot - EPS:
+            h.violate("C12", "spacing", f"{b.name} entered at {b.put_t}, only {b.put_t - a.put_t} after {a.name} (one item length of travel = {slot})", feat=lab)
+            break
+    for r in recs:
+        if r.avail_t is not None and r.avail_t < r.put_t + T - EPS:
+            h.violate("C12", "min-travel", f"{r.name} entered at {r.put_t} and was offered at {r.avail_t}, before the belt travel time {T}", feat=lab)
+            break
+    # a granted retrieval held over time makes "the head waits at the exit" ambiguous (reserved but not taken)
+    held_tokens_over_time = False
+    for t in h.toks.values():
+        if t.kind != "g" or t.granted_at is None:
+            continue
+        end = next((x[2] for x in h.hist if x[0] in ("get", "cancel") and (x[4] if x[0] == "get" else x[3]) == t.name), now)
+        if end != t.granted_at:
+            held_tokens_over_time = True
+    never_waiting = all(r.got_t == r.avail_t for r in recs if r.avail_t is not None) and not held_tokens_over_time
+    if never_waiting:
+        h.probe("c12_never_waiting_run")
+        for r in recs:
+            if r.avail_t is not None and abs(r.avail_t - (r.put_t + T)) > EPS * max(1, T):
+                h.violate("C12", "exact-travel", f"destination took every item at once, yet {r.name} entered at {r.put_t} was offered at {r.avail_t}: "
+                          f"travel {r.avail_t - r.put_t} != {T}", feat=lab)
+                break
+            if r.avail_t is None and now > r.put_t + T + EPS:
+                h.violate("C12", "exact-travel", f"destination took every item at once, yet {r.name} entered at {r.put_t} is still not offered at {now} (travel time {T})", feat=lab)
+                break
+    # ---------------- C13
+    if held_tokens_over_time:
+        return
+    S = [(r.avail_t, r.got_t if r.got_t is not None else now) for r in recs if r.avail_t is not None]
+    S = [(a, b) for a, b in S if b > a]
+    if S and any(r.put_t < a and (r.avail_t is None or r.avail_t > a) for a, b in S for r in recs):
+        h.probe("belt_stall_with_followers")
+    if any(x[0] == "grant" and x[4] == "p" and not x[5] for x in h.hist):
+        h.probe("belt_entry_waited_for_spacing")
+    if not acc:
+        for r in recs:
+            for a, b in S:
+                if a + EPS < r.put_t < b - EPS:
+                    moving = sum(1 for q in recs if q.put_t < r.put_t and (q.avail_t is None or q.avail_t > r.put_t))
+                    h.violate("C13", "nonacc-admission", f"{r.name} was admitted at {r.put_t} while the head item was waiting at the exit during [{a}, {b})", feat=lab,
+                              extra=f",moving-items={'0' if moving == 0 else '>0'}")
+                    break
+        for r in recs:
+            if r.avail_t is None:
+                if S or True:
+                    exp_min = r.put_t + T + overlap(S, r.put_t, now)
+                    if now > exp_min + EPS and not any(a <= now <= b + EPS for a, b in S if b == now):
+                        # it should have been offered by now unless the belt is stopped right now
+                        stopped_now = any(a <= now and b >= now for a, b in S)
+                        if not stopped_now:
+                            h.violate("C13", "nonacc-frozen", f"{r.name} entered at {r.put_t}; with {overlap(S, r.put_t, now)} of stopped belt it should have been "
+                                      f"offered at {exp_min}, still moving at {now}", feat=lab)
+                            break
+                continue
+            exp = r.put_t + T + overlap(S, r.put_t, r.avail_t)
+            if abs(r.avail_t - exp) > 1e-7 * max(1, T):
+                h.violate("C13", "nonacc-frozen", f"{r.name} entered at {r.put_t}, belt stopped for {overlap(S, r.put_t, r.avail_t)} meanwhile: it must be offered at "
+                          f"{exp} (entry + travel {T} + stopped time) but was offered at {r.avail_t}", feat=lab, extra=feat_of(r, S, slot, r.avail_t - exp))
+                break
+    else:
+        # ready_items of an accumulating belt is the queue of items accumulated at the exit end, so "offered" only
+        # means "joined that queue": the lower bound is C12's minimum travel time; what C13 adds is that followers
+        # KEEP ADVANCING and resume without loss: o_k <= max(p_k + T, g_{k-1} + slot)
+        prev = None
+        for r in recs:
+            if r.avail_t is None:
+                hi = r.put_t + T
+                if prev is not None:
+                    if prev.got_t is None:
+                        break
+                    hi = max(hi, prev.got_t + slot)
+                if now > hi + 1e-7 * max(1, T):
+                    h.violate("C13", "acc-upper", f"{r.name} entered at {r.put_t}, predecessor left at {prev.got_t if prev else None}: it keeps advancing and must be "
+                              f"offered by {hi} but is still on its way at {now}", feat=lab)
+                break
+            hi = r.put_t + T
+            if prev is not None and prev.got_t is not None:
+                hi = max(hi, prev.got_t + slot)
+            elif prev is not None:
+                hi = None
+            if hi is not None and r.avail_t > hi + 1e-7 * max(1, T):
+                h.violate("C13", "acc-upper", f"{r.name} entered at {r.put_t}, predecessor left at {prev.got_t if prev else None}: it keeps advancing and must be "
+                          f"offered by {hi} but was offered at {r.avail_t}", feat=lab, extra=feat_of(r, S, slot, 1))
+                break
+            prev = r
+    # admission liveness at the end of the run: a pending entry with room, spacing elapsed and (non-acc) no stall
+    pend = [t for t in h.toks.values() if t.kind == "p" and t.state == "pending"]
+    if pend and h.held + h.n_granted("p") < cap:
+        last = recs[-1].put_t
+        stalled = (not acc) and any(a <= now and b >= now for a, b in S)
+        if now >= last + slot + EPS and not stalled:
+            h.violate("C13", "admission-liveness", f"space request {pend[0].name} pending at {now} although the belt holds {h.held} of {cap}, last entry at {last}, "
+                      f"{'accumulating' if acc else 'not stalled'}", feat=lab)
